@@ -211,7 +211,9 @@ class Facts:
         self.adts = {}
         self.data = {}
         self.impls = []
+        from . import desugar
         for c in self.crates.values():
+            desugar.desugar_crate(c.bodies)         # iter.map(f).collect::<Result<Vec<_>, _>>() as the loop it abbreviates
             self.bodies.update(c.bodies)
             self.adts.update(c.adts)
             self.data.update(c.data)
